@@ -15,7 +15,6 @@ let content_bad d n = if n = 0 then [] else List.map (unit_good d) (range 0 (n -
 
 (* Store.AutoSaveIndex of the script being evaluated (field autosave=0|1, default 1) *)
 let autosv = ref true
-let bad_ids : int list ref = ref []
 
 (* bbad: manifest media type but bytes that do not decode.  Store.Push stores such content,
    fails to index it and removes it again = the push of the bytes followed by their plain
@@ -37,38 +36,38 @@ let parse_script (s : string) =
       | _ -> failwith "blob") (items (field "blobs")) in
   let find d = List.find (fun b -> b.bid = d) blobs in
   let num x = n_of_int (int_of_string x) in
-  (* one API call = a list of primitive operations of the model:
-       dgc:<d>:<t1>:...  Delete(d) with AutoGC that went on to delete t1, ... (plain deletes in a row)
-       gc:<s1>:...       GC that swept s1, ...: Forget(everything else), then their plain deletes
-       reopen            oci.New on the existing directory: no mutation *)
+  (* one API call (Model api); the model expands it to primitives (Model expand):
+       dgc:<d>:<t1>:...  Delete(d) with AutoGC that went on to delete t1, ...
+       gc:<s1>:...       GC that swept s1, ... (everything else is live)
+       reopen            oci.New on the existing directory *)
   let parse_call l =
     match l with
-    | ["push"; d] when (find (int_of_string d)).bbad ->
-      let b = find (int_of_string d) in
-      [Push (n_of_int b.bid, content_good b.bid b.bchunks, false); Delete (n_of_int b.bid)]
-    | ["tag"; d; _] when (find (int_of_string d)).bbad ->
-      (* no effect: encoded as the Untag of a reference that cannot exist (no micro-step, state unchanged) *)
-      [Untag (n_of_int (900000000 + int_of_string d))]
-    | ["push"; d] -> let b = find (int_of_string d) in [Push (n_of_int b.bid, content_good b.bid b.bchunks, b.bman)]
-    | ["pushbad"; d] -> let b = find (int_of_string d) in [Push (n_of_int b.bid, content_bad b.bid b.bchunks, b.bman)]
-    | ["tag"; d; r] -> [Tag (num d, num r)]
-    | ["untag"; r] -> [Untag (num r)]
-    | ["delete"; d] -> [Delete (num d)]
-    | ["saveindex"] -> [SaveIndex]
-    | "dgc" :: d :: ts -> Delete (num d) :: List.map (fun t -> Delete (num t)) ts
+    | ["push"; d] -> let b = find (int_of_string d) in APush (n_of_int b.bid, content_good b.bid b.bchunks)
+    | ["pushbad"; d] -> let b = find (int_of_string d) in APush (n_of_int b.bid, content_bad b.bid b.bchunks)
+    | ["tag"; d; r] -> ATag (num d, num r)
+    | ["untag"; r] -> AUntag (num r)
+    | ["tagdigest"; d] -> ATagDigest (num d)
+    | ["untagdigest"; d] -> AUntagDigest (num d)
+    | ["delete"; d] -> ADelete (num d, [])
+    | ["saveindex"] -> ASaveIndex
+    | "dgc" :: d :: ts -> ADelete (num d, List.map num ts)
     | "gc" :: ss ->
       let swept = List.map int_of_string ss in
       let live = List.filter (fun b -> not (List.mem b.bid swept)) blobs in
-      Forget (List.map (fun b -> n_of_int b.bid) live) :: List.map (fun x -> Delete (n_of_int x)) swept
-    | ["reopen"] -> []
+      AGC (List.map (fun b -> n_of_int b.bid) live, List.map n_of_int swept)
+    | ["reopen"] -> AReopen
     | _ -> failwith "op" in
   let parse_hist x =
     match String.split_on_char ':' x with
-    | "crash" :: j :: rest -> (parse_call rest, Some (int_of_string j))
-    | l -> (parse_call l, None) in
+    | "crash" :: j :: rest -> ACrashed (parse_call rest, nat_of_int (int_of_string j))
+    | l -> ADone (parse_call l) in
   autosv := (field "autosave" <> "0");
-  bad_ids := List.map (fun b -> b.bid) (List.filter (fun b -> b.bbad) blobs);
   (blobs, List.map parse_hist (items (field "hist")), parse_call (String.split_on_char ':' (field "final")))
+
+(* media type and decodability of the script's blobs (third blob field: 0 = not a manifest,
+   1 = manifest, 2 = manifest media type but bytes that do not decode) *)
+let mt_of blobs (d : n) = List.exists (fun b -> b.bid = int_of_n d && (b.bman || b.bbad)) blobs
+let dec_of blobs (d : n) = not (List.exists (fun b -> b.bid = int_of_n d && b.bbad) blobs)
 
 (* digest-and-size verification: the name of the blob whose content this is, 0 for anything else *)
 let hfun blobs (c : n list) : n =
@@ -137,25 +136,17 @@ let show_fs blobs ctr (fs : fS) =
   let dtoks = List.concat (List.map (fun d -> if fs.dirs d then ["D:" ^ dname d] else []) [DBlobs; DAlg (n_of_int 0); DAlg (n_of_int 1); DAlg (n_of_int 2); DIngest]) in
   String.concat " " (List.sort compare (ftoks @ dtoks))
 
-let show_res r = match r with ROk -> "ok" | RExists -> "exists" | RNotFound -> "notfound" | RMismatch -> "mismatch"
+let show_res r =
+  match r with
+  | ROk -> "ok" | RExists -> "exists" | RNotFound -> "notfound" | RMismatch -> "mismatch" | RInvalid -> "invalid" | RInvalidRef -> "invalidref"
 
 let rec nat_len l = match l with [] -> 0 | _ :: r -> 1 + nat_len r
 
-(* a call cut after j micro-steps = (Crashed o j') of ONE of its primitives after the earlier
-   ones completed (Proofs/OciCrash.v seq_cut); returns the store reopened on what was left *)
-let rec crash_call h s ops j =
-  match ops with
-  | [] -> run_hop h shuffle inplace ufirst !autosv s (Crashed (SaveIndex, nat_of_int 0))
-  | o :: r ->
-    let n = nat_len (op_steps h shuffle inplace ufirst !autosv s o) in
-    if j <= n then run_hop h shuffle inplace ufirst !autosv s (Crashed (o, nat_of_int j))
-    else crash_call h (run_op h shuffle inplace ufirst !autosv s o) r (j - n)
-
 let run_call h s ops = List.fold_left (fun s o -> run_op h shuffle inplace ufirst !autosv s o) s ops
 
-let run_hist h hist =
-  List.fold_left (fun s (ops, c) ->
-      match c with None -> run_call h s ops | Some j -> crash_call h s ops j) init hist
+(* the history of completed and interrupted calls (Model runa: expand, run, crash_ops) *)
+let run_hist h blobs hist =
+  runa h shuffle inplace ufirst !autosv (mt_of blobs) (dec_of blobs) hist init
 
 (* the primitive the cut falls into: (state before it, it) *)
 let rec locate h s ops j =
@@ -165,34 +156,122 @@ let rec locate h s ops j =
     let n = nat_len (op_steps h shuffle inplace ufirst !autosv s o) in
     if j <= n then Some (s, o) else locate h (run_op h shuffle inplace ufirst !autosv s o) r (j - n)
 
-(* initialisation: final=init, no history: the first oci.New on an empty directory *)
+(* consistency of the two models: a call that runs ALONE in the concurrent model
+   (Model/OciCrashConc.v: one thread, scheduled to completion) must leave the same shared
+   directory and resolver as the sequential model's operation *)
+let conc_agrees h blobs (s : st) (a : api) : bool =
+  let m = mt_of blobs and dc = dec_of blobs in
+  let call =
+    match a with
+    | APush (d, c) when dc d || not (m d) -> Some (CPush (d, c, m d), Push (d, c, m d))
+    | ATag (d, r) when dc d || not (m d) -> Some (CTag (d, r), Tag (d, r))
+    | AUntag r -> Some (CUntag r, Untag r)
+    | ASaveIndex -> Some (CSaveIndex, SaveIndex)
+    | _ -> None in
+  match call with
+  | None -> true
+  | Some (cc, o) ->
+    if not !autosv then true else begin
+      let c0 = start h s [cc] in
+      let n = (match c0.cthreads with t :: _ -> nat_len t.tprog | [] -> 0) + 2 in
+      let c = sched shuffle c0 (List.init n (fun _ -> nat_of_int 0)) in
+      let s1 = run_op h shuffle inplace ufirst !autosv s o in
+      let same p = (c.cfs.files p = s1.sfs.files p) in
+      c.ctags = s1.stags && c.cdigs = s1.sdigs && same FLayout && same FIndex &&
+      List.for_all (fun b -> same (FBlob (n_of_int b.bid))) blobs
+    end
+
+(* concurrency stream, batches run to completion: the observed final directory must be the final
+   directory of SOME schedule of the concurrent model; all interleavings of the extracted
+   scheduler are explored (memoised on the configuration) *)
+let conc_finals h blobs (s : st) (calls : ccall list) : string list * string list =
+  let c0 = start h s calls in
+  let n = List.length calls in
+  let show (c : conf) =
+    let idx = match read_index c.cfs with Some l -> show_index l | None -> "none" in
+    let bl = List.filter (fun b -> exists_file c.cfs (FBlob (n_of_int b.bid))) blobs in
+    "I=" ^ idx ^ ";B=" ^ String.concat "," (List.map (fun b -> string_of_int b.bid) bl) in
+  let key (c : conf) = (show c, Marshal.to_string (c.ctags, c.cdigs, c.clock, c.cthreads) []) in
+  let seen = Hashtbl.create 997 in
+  let finals = Hashtbl.create 17 in
+  let every = Hashtbl.create 97 in
+  let rec go (c : conf) =
+    let k = key c in
+    if not (Hashtbl.mem seen k) then begin
+      Hashtbl.add seen k ();
+      Hashtbl.replace every (show c) ();
+      if List.for_all (fun t -> t.tprog = []) c.cthreads then Hashtbl.replace finals (show c) ()
+      else
+        for i = 0 to n - 1 do
+          let c' = sched shuffle c [nat_of_int i] in
+          let len (x : conf) = nat_len (List.nth x.cthreads i).tprog in
+          if len c' < len c then go c'
+        done
+    end in
+  go c0;
+  (List.sort compare (Hashtbl.fold (fun k () acc -> k :: acc) finals []),
+   List.sort compare (Hashtbl.fold (fun k () acc -> k :: acc) every []))
+
+let parse_conc blobs (sc : string) : ccall list =
+  let parts = String.split_on_char ';' sc in
+  let f = List.fold_left (fun acc x ->
+      if String.length x >= 5 && String.sub x 0 5 = "conc=" then String.sub x 5 (String.length x - 5) else acc) "" parts in
+  let num x = n_of_int (int_of_string x) in
+  List.map (fun it ->
+      match String.split_on_char ':' it with
+      | ["push"; d] ->
+        let b = List.find (fun b -> b.bid = int_of_string d) blobs in
+        CPush (n_of_int b.bid, content_good b.bid b.bchunks, mt_of blobs (n_of_int b.bid))
+      | ["tag"; d; r] -> CTag (num d, num r)
+      | ["untag"; r] -> CUntag (num r)
+      | ["saveindex"] -> CSaveIndex
+      | _ -> failwith "conc call") (List.filter (fun y -> y <> "") (String.split_on_char '|' f))
+
+(* initialisation: final=init; the history (if any) consists of earlier attempts crash:<j>:init *)
 let is_init sc =
   let n = String.length sc in n >= 10 && String.sub sc (n - 10) 10 = "final=init"
-let init_steps () = new_steps shuffle inplace src_layout_inplace empty_fs (nat_of_int 0)
 let rec take n l = if n <= 0 then [] else match l with [] -> [] | x :: r -> x :: take (n - 1) r
+let init_cuts sc =
+  let parts = String.split_on_char ';' sc in
+  let h = List.fold_left (fun acc x ->
+      if String.length x >= 5 && String.sub x 0 5 = "hist=" then String.sub x 5 (String.length x - 5) else acc) "" parts in
+  List.map (fun it ->
+      match String.split_on_char ':' it with
+      | ["crash"; j; "init"] -> nat_of_int (int_of_string j)
+      | _ -> failwith "init history") (List.filter (fun y -> y <> "") (String.split_on_char ',' h))
+(* the directory the earlier attempts left, the counter, and the steps of the next attempt *)
+let init_state sc =
+  let (fs, c) = init_attempts shuffle inplace src_layout_inplace (init_cuts sc) empty_fs (nat_of_int 0) in
+  (fs, c, new_steps shuffle inplace src_layout_inplace fs c)
 
 let () =
   iter_lines (fun l ->
     match split_ws l with
     | id :: "S" :: sc :: _ when is_init sc ->
+      let (_, _, st) = init_state sc in
       Printf.printf "%s\n" (String.trim (Printf.sprintf "%s STEPS %s" id
-        (String.concat " " (List.map show_step (init_steps ())))))
+        (String.concat " " (List.map show_step st))))
     | id :: "K" :: j :: sc :: _ when is_init sc ->
-      let fsk = apply (take (int_of_string j) (init_steps ())) empty_fs in
-      let fs2 = apply (new_steps shuffle inplace src_layout_inplace fsk (nat_of_int 1)) fsk in
+      let (fs, c, st) = init_state sc in
+      let fsk = apply (take (int_of_string j) st) fs in
+      let fs2 = apply (new_steps shuffle inplace src_layout_inplace fsk (S c)) fsk in
       let ok = new_okb fsk && layout_okb fs2 && (match read_index fs2 with Some [] -> true | _ -> false) in
-      Printf.printf "%s STATE %s%s\n" id (show_fs [] 1 fsk) (if ok then "" else " MODEL-NOT-RECOVERABLE")
+      Printf.printf "%s STATE %s%s\n" id (show_fs [] (int_of_nat c + 1) fsk) (if ok then "" else " MODEL-NOT-RECOVERABLE")
     | id :: "R" :: sc :: _ when is_init sc -> Printf.printf "%s RES ok\n" id
     | id :: "S" :: sc :: _ ->
       let (blobs, hist, fin) = parse_script sc in
       let h = hfun blobs in
-      let s = run_hist h hist in
-      Printf.printf "%s\n" (String.trim (Printf.sprintf "%s STEPS %s" id
-        (String.concat " " (List.map show_step (steps_seq h shuffle inplace ufirst !autosv s fin)))))
+      let s = run_hist h blobs hist in
+      let agree = conc_agrees h blobs s fin in
+      let fin = expand h (mt_of blobs) (dec_of blobs) s fin in
+      Printf.printf "%s\n" (String.trim (Printf.sprintf "%s STEPS %s%s" id
+        (String.concat " " (List.map show_step (steps_seq h shuffle inplace ufirst !autosv s fin)))
+        (if agree then "" else " CONC-MODEL-DIFFERS")))
     | id :: "K" :: j :: sc :: _ ->
       let (blobs, hist, fin) = parse_script sc in
       let h = hfun blobs in
-      let s = run_hist h hist in
+      let s = run_hist h blobs hist in
+      let fin = expand h (mt_of blobs) (dec_of blobs) s fin in
       let j = int_of_string j in
       let fsk = crash_seq h shuffle inplace ufirst !autosv s fin (nat_of_int j) in
       let univ = List.map (fun b -> n_of_int b.bid) blobs in
@@ -200,29 +279,35 @@ let () =
         match locate h s fin j with
         | Some (sj, o) -> recoverableb h univ sj.sfs fsk (run_op h shuffle inplace ufirst !autosv sj o).sfs
         | None -> let s1 = run_call h s fin in recoverableb h univ s1.sfs fsk s1.sfs in
+      (* C10_api_reopen_loads: loadIndex succeeds on what was left, decoding included *)
+      let rec_ok = rec_ok && load_okb (mt_of blobs) (dec_of blobs) fsk in
       Printf.printf "%s STATE %s%s\n" id (show_fs blobs (int_of_nat s.sctr + nat_len fin + 1) fsk)
         (* with AutoSaveIndex off the predicate is known to fail (C10_crash_safe_refuted_autosave_off) *)
         (if rec_ok || not !autosv then "" else " MODEL-NOT-RECOVERABLE")
     | id :: "R" :: sc :: _ ->
       let (blobs, hist, fin) = parse_script sc in
       let h = hfun blobs in
-      let res s ops =
-        match ops with
-        | [] -> "ok"
-        | [Untag r] when int_of_n r >= 900000000 ->
-          (* Tag of an undecodable manifest: refused when the bytes are there, not found otherwise *)
-          if exists_file s.sfs (FBlob (n_of_int (int_of_n r - 900000000))) then "invalid" else "notfound"
-        | [Push (d, _, false); Delete d'] when d = d' ->
-          (* undecodable manifest: stored, not indexable, removed again *)
-          (match op_res h s (List.hd ops) with ROk -> "invalid" | r -> show_res r)
-        | o :: _ -> show_res (op_res h s o) in
+      let m = mt_of blobs and dc = dec_of blobs in
       let rec go s calls acc =
         match calls with
         | [] -> List.rev acc
-        | (ops, None) :: r -> go (run_call h s ops) r (res s ops :: acc)
-        | (ops, Some j) :: r ->
+        | (ADone a as x) :: r ->
+          go (run_acall h shuffle inplace ufirst !autosv m dc s x) r (show_res (api_res h m dc s a) :: acc)
+        | (ACrashed (_, _) as x) :: r ->
           (* results of the processes that were killed are not part of the observation *)
-          go (crash_call h s ops j) r [] in
-      Printf.printf "%s RES %s\n" id (String.concat " " (go init (hist @ [(fin, None)]) []))
+          go (run_acall h shuffle inplace ufirst !autosv m dc s x) r [] in
+      Printf.printf "%s RES %s\n" id (String.concat " " (go init (hist @ [ADone fin]) []))
+    | id :: "C" :: _ -> Printf.printf "%s CONC\n" id   (* concurrency stream, killed: oracle only *)
+    | id :: "Q" :: sc :: obs :: _ ->
+      let (blobs, hist, _) = parse_script sc in
+      let h = hfun blobs in
+      let s = run_hist h blobs hist in
+      let (fs, every) = conc_finals h blobs s (parse_conc blobs sc) in
+      (* "any:<dir>": the process was killed; <dir> must be the directory of some reachable configuration *)
+      let killed = String.length obs > 4 && String.sub obs 0 4 = "any:" in
+      let obs' = if killed then String.sub obs 4 (String.length obs - 4) else obs in
+      if obs = "wedged" || List.mem obs' (if killed then every else fs) then Printf.printf "%s QREACH yes\n" id
+      else Printf.printf "%s QREACH no: the model's schedules %s {%s}\n" id
+          (if killed then "pass through" else "end in") (String.concat " | " (if killed then every else fs))
     | [] -> ()
     | _ -> Printf.printf "BADLINE %s\n" l)
